@@ -745,6 +745,13 @@ def _parse_phase_numpydoc_and_google(
                                     if isinstance(scanned[return_tokens[0]][0], str)
                                     and scanned[return_tokens[0]][0].isspace()
                                     else {
+                                        # `Tuple[int, int]:` and nothing below it: a type without prose
+                                        "typ": scanned[return_tokens[0]][0].strip()[:-1]
+                                    }
+                                    if len(scanned[return_tokens[0]]) == 1
+                                    and isinstance(scanned[return_tokens[0]][0], str)
+                                    and scanned[return_tokens[0]][0].rstrip().endswith(":")
+                                    else {
                                         "doc": scanned[return_tokens[0]][0].lstrip()
                                         if isinstance(scanned[return_tokens[0]][0], str)
                                         else scanned[return_tokens[0]][0]
